@@ -247,3 +247,22 @@ func countBlock(spec *common.Spec, c Counters, ev *blockEvent, pre *absstate.Sta
 		}
 	}
 }
+
+// countNeg counts the outcome of one negative variant per catalogue class and fork.
+func countNeg(c Counters, ev *blockEvent, pre *absstate.State) {
+	c.Add("neg_events", 1)
+	out := "rejected"
+	if ev.Accepted {
+		out = "accepted"
+	}
+	if ev.Panic != "" {
+		out = "panic"
+	}
+	c.Add("neg_"+out, 1)
+	c.Add("neg_class_"+ev.Class, 1)
+	c.Add("neg_class_"+ev.Class+"_"+pre.Fork, 1)
+	c.Add("neg_variant_"+ev.Variant+"_"+out, 1)
+	if ev.Clamped {
+		c.Add("neg_clamped", 1)
+	}
+}
